@@ -4,6 +4,7 @@ CONTRACT_MODULES = ["detectors", "menger"]
 DEDUCTIVE = [
     ("detectors", "kneeliverse.curvature.knee"),
     ("detectors", "kneeliverse.menger.knee"),
+    ("menger", "kneeliverse.menger.menger_curvature"),      # the callee whose contract menger.knee relies on (owned by C17)
     ("detectors", "kneeliverse.dfdt.get_knee_gradient"),
     ("detectors", "kneeliverse.dfdt.knee"),
     ("detectors", "kneeliverse.lmethod.get_knee"),
